@@ -738,7 +738,7 @@ C_<TN_, TA_, SG_, TH_, TS_...>::resolveRandom(Control& control,
 											  const Ranks& ranks,
 											  const Rank top) const noexcept
 {
-	const Utility random = control._core.rng.next();
+	const Utility random = control._core.rng->next();
 	HFSM2_ASSERT(0.0f <= random && random < 1.0f);
 
 	Utility cursor = random * sum;
